@@ -4,7 +4,14 @@ package c18
 
 import (
 	"fmt"
+	"runtime"
+	"sync"
+	"sync/atomic"
 	"time"
+
+	"go.nanomsg.org/mangos/v3"
+
+	"verifharness/hx"
 
 	"verifharness/mon"
 )
@@ -94,4 +101,131 @@ func staleObjs() []objRef {
 		}
 	}
 	return out
+}
+
+// runBEMulti: several goroutines issue best-effort Sends on one socket at the same time against a
+// queue that is (nearly) full — no peer, or a peer that takes nothing.  Every Send queues or drops;
+// none may be left waiting (the racing callers compete for the last free slots of the queue).
+func runBEMulti(c *mon.Case, sp spec) {
+	w := newWorld(c, sp)
+	if w == nil {
+		return
+	}
+	if !w.prepareSend() { // queue state as specified (empty / partial / full), peers none or held
+		return
+	}
+	if !w.setOpt(optBE, true) {
+		return
+	}
+	if sp.WithDL && !w.setOpt(optSD, sp.D()) {
+		return
+	}
+	g, rounds := sp.K, 150
+	hx.SetYields(c.Rand.Int63(), &hx.YieldCfg{ProbGosched: 0.2, ProbSleep: 0.05, MaxSleep: 100 * time.Microsecond})
+	defer hx.SetYields(0, nil)
+	var calls []*mon.Call
+	for i := 0; i < g; i++ {
+		calls = append(calls, mon.Go("Send-loop", func() (interface{}, error) {
+			for r := 0; r < rounds; r++ {
+				if err := w.send(w.obj); err != nil {
+					return r, err
+				}
+				if r%8 == 7 {
+					runtime.Gosched()
+				}
+			}
+			return rounds, nil
+		}))
+	}
+	all := func() bool {
+		for _, k := range calls {
+			if !k.Done() {
+				return false
+			}
+		}
+		return true
+	}
+	if !c.AwaitOrViolate("best-effort-blocked/multi/"+w.id(), fmt.Sprintf("%d goroutines x %d best-effort %s (peer %s, queue %s, q=%d) all returning", g, rounds, w.id(), sp.Peer, sp.State, sp.Q), all, mon.AwaitOpts{MaxTimer: sp.D()}) {
+		w.outcome = "no-return"
+		return
+	}
+	for _, k := range calls {
+		if v, err, _ := k.Result(); err != nil {
+			w.outcome = "err:" + errName(err)
+			if isTimeoutErr(err) {
+				c.Violate("best-effort/timeout-error/"+w.id(), "best-effort %s returned %v at round %v of a concurrent burst", w.id(), err, v)
+			} else {
+				c.Inconclusive("best-effort %s returned %v", w.id(), err)
+			}
+			return
+		}
+	}
+	w.outcome = "ok"
+	c.Count("best_effort_sends_returned", g*rounds)
+	c.Nontrivial()
+}
+
+// runBERace: the demo-sized version of the race for the last queue slot, repeated: a fresh socket
+// with best effort on, a small write queue and no peer; G goroutines released at the same moment
+// each issue one or two Sends.  With the queue filling up right then, callers see "room" and "no
+// room" at almost the same instant; whichever way each one decides, none may be left waiting.
+func runBERace(c *mon.Case, sp spec) {
+	rounds := sp.K
+	g := 3 + c.Rand.Intn(6)
+	for r := 0; r < rounds && !c.Failed(); r++ {
+		s, err := hx.SockCtors[sp.Proto]()
+		if err != nil {
+			c.Inconclusive("socket: %v", err)
+			return
+		}
+		w := &world{c: c, sp: sp, sock: s, obj: s}
+		if s.SetOption(mangos.OptionBestEffort, true) != nil || s.SetOption(mangos.OptionWriteQLen, sp.Q) != nil {
+			s.Close()
+			c.Inconclusive("%s: best effort / WriteQLen=%d not accepted", sp.Proto, sp.Q)
+			return
+		}
+		var ready, done sync.WaitGroup
+		var finished atomic.Int32
+		gate := make(chan struct{})
+		errs := make([]error, g)
+		for i := 0; i < g; i++ {
+			i := i
+			n := 1 + (r+i)%2
+			ready.Add(1)
+			done.Add(1)
+			go func() {
+				defer done.Done()
+				defer finished.Add(1)
+				ready.Done()
+				<-gate
+				for k := 0; k < n; k++ {
+					if e := w.send(s); e != nil {
+						errs[i] = e
+						return
+					}
+				}
+			}()
+		}
+		ready.Wait()
+		close(gate)
+		for spin := 0; spin < 2000 && int(finished.Load()) < g; spin++ {
+			runtime.Gosched()
+		}
+		if int(finished.Load()) < g {
+			if !c.AwaitOrViolate("best-effort-blocked/race/"+w.id(), fmt.Sprintf("round %d: %d goroutines each issuing best-effort Sends on a fresh %s socket (no peer, WriteQLen %d) all returning", r, g, sp.Proto, sp.Q), func() bool { return int(finished.Load()) == g }, mon.AwaitOpts{}) {
+				s.Close()
+				return
+			}
+		}
+		done.Wait()
+		s.Close()
+		for _, e := range errs {
+			if e != nil {
+				c.Violate("best-effort/error/"+w.id()+"/"+errName(e), "round %d: a best-effort Send with no peer returned %v", r, e)
+				return
+			}
+		}
+		c.Count("best_effort_race_rounds", 1)
+	}
+	c.Nontrivial()
 }
